@@ -62,14 +62,43 @@ func genReg(r *Rng) Sx {
 	if r.Pct(10) {
 		n = 10 + r.Intn(30)
 	}
+	churn := r.Pct(20)
+	if churn {
+		n += 8
+	}
+	// what each root was given so far: removals aim at routes that exist, and new routes often repeat the method and
+	// path of one that exists (or existed), so that equally ranked routes meet in every order of arrival and departure
+	given := map[string][]RouteSpec{}
+	curRoot := ""
 	mkRoute := func() RouteSpec {
 		rs := RouteSpec{ID: id, Method: r.Pick([]string{"GET", "GET", "POST"}), Rel: r.Pick(regRels)}
+		if g := given[curRoot]; len(g) > 0 && r.Pct(35) {
+			o := g[r.Intn(len(g))]
+			rs.Method, rs.Rel = o.Method, o.Rel
+		}
+		given[curRoot] = append(given[curRoot], rs)
 		id++
 		return rs
 	}
 	for i := 0; i < n; i++ {
 		root := r.Pick(roots)
-		switch p := r.Intn(100); {
+		p := r.Intn(100)
+		if churn {
+			// route churn on one service: most operations add routes to and remove routes from the first root
+			if r.Pct(85) {
+				root = roots[0]
+			}
+			if registered[root] || created[root] {
+				p = 55 + r.Intn(37)
+			}
+		}
+		curRoot = root
+		if p >= 55 && p < 75 && len(given[root]) >= 12 {
+			// (at most 12 routes per service: beyond that sort.Sort is no longer the stable insertion sort of the model,
+			// and which of several equally ranked routes answers is not determined - in the fresh container either)
+			p = 75 + r.Intn(10)
+		}
+		switch {
 		case p < 40:
 			// the property speaks of pairwise different root paths: "" and "/" are the same root, so are re-adds
 			if registered[root] {
@@ -93,12 +122,16 @@ func genReg(r *Rng) Sx {
 			created[root] = true
 			ops = append(ops, L(2, A(root), mkRoute().Sx()))
 		case p < 85:
-			rel := r.Pick(regRels)
+			rel, method := r.Pick(regRels), r.Pick([]string{"GET", "POST"})
+			if g := given[root]; len(g) > 0 && r.Pct(65) {
+				o := g[r.Intn(len(g))]
+				rel, method = o.Rel, o.Method
+			}
 			full := strings.TrimRight(root, "/") + "/" + strings.TrimLeft(rel, "/")
 			if rel == "" {
 				full = root
 			}
-			ops = append(ops, L(3, A(root), A(full), A(r.Pick([]string{"GET", "POST"}))))
+			ops = append(ops, L(3, A(root), A(full), A(method)))
 		case p < 92:
 			inst := strings.NewReplacer("{id}", "7", "{v}", "vv", "{k}", "kk").Replace
 			ops = append(ops, L(6, A(r.Pick([]string{"GET", "POST"})), A(inst(strings.TrimRight(root, "/")+r.Pick(regRels[:6])))))
